@@ -146,11 +146,21 @@ def translate(pins=None):
     v_rt = variant("db.record_tags", rt)
     v_dt = variant("db.delete_tags", dt)
     # structural cross-checks of what the variant names claim
-    rt_src = src(rt)
-    has_dedupe = "seen_pairs" in rt_src
-    has_skip = "current_pairs" in rt_src
-    if (v_rt == "fixed") != (has_dedupe and has_skip) or (v_rt == "shipped" and (has_dedupe or has_skip)):
-        fail("record_tags: variant pin and structural markers disagree", rt)
+    RT_FLAGS = {"shipped": (False, False), "deduped": (True, False), "deduped+skip": (True, True), "fixed": (True, True)}
+    if v_rt not in RT_FLAGS:
+        fail(f"record_tags: variant {v_rt!r} has no configuration", rt)
+    top = body_nodoc(rt)
+    if_new = [i for i, n in enumerate(top) if isinstance(n, ast.If) and src(n.test) == "new"]
+    if len(if_new) != 1:
+        fail("record_tags: expected exactly one top-level `if new:`", rt)
+    before = [src(n) for n in top[:if_new[0]] if isinstance(n, ast.Assign)]
+    dedupe_by_hash = "tag_rows = list({tag_row.tag_hash: tag_row for tag_row in tag_rows}.values())" in before
+    dedupe_by_pair = "tags = unique_tags" in before and "seen_pairs = set()" in before
+    has_dedupe = dedupe_by_hash or dedupe_by_pair
+    first_in_new = top[if_new[0]].body[0]
+    has_skip = isinstance(first_in_new, ast.Assign) and src(first_in_new.targets[0]) == "current_pairs"
+    if RT_FLAGS[v_rt] != (has_dedupe, has_skip):
+        fail(f"record_tags: variant pin {v_rt!r} and structural markers (dedupe={has_dedupe}, skip={has_skip}) disagree", rt)
     conds = [n for n in ast.walk(dt) if isinstance(n, ast.Compare) and src(n.left) == "Tag.value"]
     if len(conds) != 1 or len(conds[0].ops) != 1 or not isinstance(conds[0].ops[0], ast.Eq):
         fail("delete_tags: expected exactly one `Tag.value == ...` comparison", dt)
@@ -170,7 +180,7 @@ def translate(pins=None):
             fail(f"{qual}: shape changed (pin {pin(fn)}, expected {pins[qual]})", fn)
 
     b = lambda x: "true" if x else "false"
-    cfg = dict(dedupe=(v_rt == "fixed"), skip_current=(v_rt == "fixed"), null_match=null_match)
+    cfg = dict(dedupe=has_dedupe, skip_current=has_skip, null_match=null_match)
     out = []
     out.append("(* GENERATED by translate/tr_tagdb.py from redun/cli.py, redun/hashing.py, redun/tags.py,\n"
                "   redun/backends/db/__init__.py -- do not edit. *)\n")
@@ -185,8 +195,9 @@ def translate(pins=None):
     out.append("Lemma C24_tie_cli : gen_cli = cli_model.\nProof. reflexivity. Qed.\n")
     out.append("Lemma C24_tie_hash : gen_hash_fields = hash_fields_model.\nProof. reflexivity. Qed.\n")
     out.append("Lemma C24_tie_default : gen_default_current = default_current_model.\nProof. reflexivity. Qed.\n")
-    out.append("Lemma C24_tie_cfg : gen_cfg = shipped \\/ gen_cfg = fixed \\/\n"
-               "  gen_cfg = mkCfg false false true \\/ gen_cfg = mkCfg true true false.\n"
+    out.append("(* one of the configurations that a recognised shape of record_tags / delete_tags can give *)\n"
+               "Lemma C24_tie_cfg : In gen_cfg [shipped; deduped; fixed; mkCfg false false true;\n"
+               "  mkCfg true false true; mkCfg true true false].\n"
                "Proof. vm_compute; tauto. Qed.\n\n")
     out.append("(* the theorems, re-checked for the configuration the code has now *)\n")
     out.append("Lemma C24_gen_acyclic : forall ops s, run gen_cfg init ops = Some s -> acyclic s.\n"
@@ -201,6 +212,12 @@ def translate(pins=None):
                "  (forall e k v, In (k, v) (cur_pairs s e) <-> spec_has (spec_run ops) e k v = true) /\\\n"
                "  ~ In 1 (run_log gen_cfg init ops).\n"
                "Proof. exact (C24_refines_set gen_cfg). Qed.\n")
+    if cfg["dedupe"]:
+        out.append("(* a command may name one pair twice *)\n"
+                   "Lemma C24_gen_same_pair_twice : forall ops e k v, ok_for gen_cfg ops ->\n"
+                   "  exists s, run gen_cfg init (ops ++ [TAdd e [(k, v); (k, v)]]) = Some s /\\\n"
+                   "    In (k, v) (cur_pairs s e) /\\ ~ In 1 (run_log gen_cfg init (ops ++ [TAdd e [(k, v); (k, v)]])).\n"
+                   "Proof. exact (C24_same_pair_twice_deduped gen_cfg eq_refl). Qed.\n")
     if all(cfg.values()):
         out.append("Lemma C24_gen_ok_for_all : forall ops, ok_for gen_cfg ops.\nProof. exact fixed_ok_for_all. Qed.\n")
         out.append("Lemma C24_gen_nodup : forall ops, in_scope ops ->\n"
